@@ -2,6 +2,7 @@
 # usage: tryseed.sh <PROP> <patch.diff>  -- apply a seeded change to /repo, run the quick check, undo
 set -u
 prop=$1; patch=$2
+if [ -n "$(git -C /repo status --porcelain)" ]; then echo "REFUSING: /repo has uncommitted changes (commit first)"; exit 9; fi
 cd /repo && git apply "$patch" || { echo "patch does not apply"; exit 3; }
 cd /verif && ./bin/govc check $prop 2>&1 | grep -E "VIOLATION|KNOWN|TOOL|property " | cut -c1-400
 rc=${PIPESTATUS[0]}
